@@ -326,7 +326,7 @@ open Kmip.Batch in
     "cancelled" instead: `C09.stop_semantics`). `Batch.execFull` is total: a handler panic is a
     value of the model (`Outcome.panicTyped/.panicOther`), recovered in `executeItem`. The outcome
     alphabet of the batch model contains only values the server can RENDER; for the others see
-    `C08_outcomes_full_false` below. -/
+    `outcome_is_an_item` below. -/
 theorem handler_outcome_is_an_item (srv : Srv) (req : Req) (h : Accepted srv req)
     (hns : req.opt ≠ optStop) (j : Nat) (it : Item) (hj : req.items[j]? = some it)
     (hd : dispatched srv it = true) :
@@ -342,50 +342,43 @@ theorem handler_outcome_is_an_item (srv : Srv) (req : Req) (h : Accepted srv req
   simp only [dispatched, Bool.and_eq_true, bne_iff_ne, ne_eq] at hd
   exact Or.inr (Or.inl ⟨hd.2, hout⟩)
 
-/-! ### handler outcomes whose RENDERING panics: false of the current code
+/-! ### handler outcomes whose RENDERING panics
   `handler_outcome_is_an_item` is about the outcome alphabet of the batch model — success, typed
   error, plain error, panic with a typed error, panic with anything else — all of which are values the
   server can render. The property says "panic with ANY value". `Kmip.Recover` models the step the
   batch model leaves out: rendering an error / a panic value runs its `Error`, `String`, `Unwrap`
-  methods — user code — and where that panics the current code has no recover. Confirmed on the real
-  server by `lts.srv` and `srv.http` (behaviours `pnilerr`, `rnilerr`, `pbadstringer`, `pbaderr`,
-  `pbadunwrap`: the child process dies). -/
+  methods — user code — which may panic in turn (a typed nil returned as error is enough). Since
+  06bba78 a recover around the whole of `executeItemWithMiddleware` fails the item; before, the
+  process died. Exercised on the real server by `lts.srv` and `srv.http` (behaviours `pnilerr`,
+  `rnilerr`, `pbadstringer`, `pbaderr`, `pbadunwrap`). -/
 
-open Kmip.Recover in
 /-- the clause at full strength: every outcome of an operation handler becomes one response item. -/
 def C08_outcomes_full (p : Recover.Params) : Prop :=
   ∀ o : Recover.Outcome, ∃ failed, Recover.run p o = .item failed
 
 open Kmip.Recover in
-/-- false of the current code: an error (or panic value) whose rendering panics kills the process. -/
-theorem poisoned_outcome_kills_the_process :
-    Recover.run Recover.current (.err .panics) = .processDies ∧
-    Recover.run Recover.current (.panic .panics) = .processDies := ⟨rfl, rfl⟩
-
-theorem C08_outcomes_full_false : ¬ C08_outcomes_full Recover.current := by
-  intro h
-  obtain ⟨f, hf⟩ := h (.err .panics)
-  cases hf
-
-open Kmip.Recover in
-/-- what holds of the current code: every outcome the server can render is answered with one item,
-    failed unless the handler succeeded. -/
-theorem benign_outcome_is_an_item (o : Recover.Outcome) (hb : o.benign = true) :
+/-- every outcome — including errors and panic values whose rendering panics — is answered with one
+    item, failed unless the handler succeeded. -/
+theorem outcome_is_an_item (o : Recover.Outcome) :
     Recover.run Recover.current o = .item (o != .ok) := by
   cases o with
   | ok => rfl
-  | err r => cases r <;> simp_all [Recover.Outcome.benign] <;> rfl
-  | panic r => cases r <;> simp_all [Recover.Outcome.benign] <;> rfl
+  | err r => cases r <;> rfl
+  | panic r => cases r <;> rfl
+
+theorem outcomes_become_items : C08_outcomes_full Recover.current :=
+  fun o => ⟨_, outcome_is_an_item o⟩
 
 open Kmip.Recover in
-/-- with the proposed repair (a recover around the whole of `executeItemWithMiddleware`) the clause
-    holds at full strength. -/
-theorem C08_outcomes_full_of_guard : C08_outcomes_full Recover.repaired := by
-  intro o
-  cases o with
-  | ok => exact ⟨false, rfl⟩
-  | err r => cases r <;> exact ⟨true, rfl⟩
-  | panic r => cases r <;> exact ⟨true, rfl⟩
+/-- before 06bba78: an error (or panic value) whose rendering panics killed the process. -/
+theorem old_poisoned_outcome_killed_the_process :
+    Recover.run Recover.beforeGuard (.err .panics) = .processDies ∧
+    Recover.run Recover.beforeGuard (.panic .panics) = .processDies := ⟨rfl, rfl⟩
+
+theorem old_outcomes_full_false : ¬ C08_outcomes_full Recover.beforeGuard := by
+  intro h
+  obtain ⟨f, hf⟩ := h (.err .panics)
+  cases hf
 
 /-! ### non-vacuity -/
 
